@@ -21,7 +21,7 @@ def rename_fields(fields, resources=None, regex=True):
                 '^(?:{})\\Z'.format(
                     src if regex else re.escape(src)
                 )
-            ), tgt) for src, tgt in fields.items()
+            ), tgt if regex else tgt.replace('\\', '\\\\')) for src, tgt in fields.items()
         ]
         matched = set()
         renames = dict()
